@@ -19,6 +19,7 @@ func Run(ctx *core.Ctx) {
 		"floats restricted to dyadic rationals with small numerators; integers to 32-bit safe range (TLC arithmetic)")
 	ReplayFamilies(ctx)
 	PositionFamily(ctx)
+	LiteralFamily(ctx)
 	RandomTraces(ctx, ctx.Pick(4000, 60000))
 }
 
